@@ -679,6 +679,8 @@ def run_determ(ctx, i):
     img_v = rng.random((H, W)) + 0.2
     kv = rng.random((3, 3)) + 0.1
     seed = int(rng.integers(1, 10 ** 6))
+    if i % 4 != 3:
+        seed = (0, 1, 2 ** 32 - 1)[i % 4]      # boundary values of "a fixed seed" (only -1 means "draw one")
     sims = []
     for rep in range(3):
         if rep == 1:
